@@ -27,6 +27,8 @@ type ReplayFile struct {
 	Attempts       int               `json:"minimiser_attempts"`
 	ReplayVerified bool              `json:"replay_verified"`
 	OriginalRuns   []c14sim.RunSpec  `json:"original_runs,omitempty"`
+	// Env: for lone-calls-disagree, the environment change every second lone process runs under
+	Env []string `json:"environment,omitempty"`
 }
 
 // compact builds a replay file whose pool holds only the keys in use.
@@ -117,8 +119,8 @@ func finalize(f *finding, base uint64, pool []*c14sim.Key, parallel int) *Replay
 	if f.Class == "lone-calls-disagree" {
 		k := *f.Pool[0]
 		k.ID = 0
-		rf := &ReplayFile{Tool: toolVersion, Property: "C14", Class: f.Class, Detail: f.Detail, BaseSeed: base, Pool: []*c14sim.Key{&k}, Minimised: true}
-		rf.ReplayVerified, _, _ = refsDisagree(&k, 12, parallel)
+		rf := &ReplayFile{Tool: toolVersion, Property: "C14", Class: f.Class, Detail: f.Detail, BaseSeed: base, Pool: []*c14sim.Key{&k}, Minimised: true, Env: minimiseEnv(&k, f.Env, parallel)}
+		rf.ReplayVerified, _, _ = refsDisagree(&k, 12, parallel, rf.Env...)
 		return rf
 	}
 	rf := compact(f, base, pool)
@@ -266,6 +268,27 @@ func dropTask(s c14sim.RunSpec, t int) c14sim.RunSpec {
 	return d
 }
 
+// minimiseEnv drops every environment assignment that is not needed for two lone calls to disagree. If the
+// calls disagree without any change of environment, none is recorded.
+func minimiseEnv(k *c14sim.Key, env []string, parallel int) []string {
+	if len(env) == 0 {
+		return nil
+	}
+	if d, _, _ := refsDisagree(k, 8, parallel); d {
+		return nil
+	}
+	cur := append([]string{}, env...)
+	for i := 0; i < len(cur); {
+		cand := append(append([]string{}, cur[:i]...), cur[i+1:]...)
+		if d, _, _ := refsDisagree(k, 4, parallel, cand...); d && len(cand) > 0 {
+			cur = cand
+		} else {
+			i++
+		}
+	}
+	return cur
+}
+
 func doReplay(path string, parallel int) int {
 	var rf ReplayFile
 	if err := drv.ReadJSON(path, &rf); err != nil {
@@ -275,7 +298,7 @@ func doReplay(path string, parallel int) int {
 		if len(rf.Pool) == 0 {
 			fatal("replay file without a key")
 		}
-		if d, x, y := refsDisagree(rf.Pool[0], 16, parallel); d {
+		if d, x, y := refsDisagree(rf.Pool[0], 16, parallel, rf.Env...); d {
 			fmt.Printf("16 lone first calls of %s(%q) in fresh processes: results differ\n  %s\n  %s\nVIOLATION property=C14 replay=%s\n", rf.Pool[0].API, clip(rf.Pool[0].Source, 200), clip(x, 600), clip(y, 600), path)
 			return drv.ExitViolation
 		}
